@@ -30,7 +30,7 @@ ASSUMPTIONS = [
 ]
 REQUIRED_COUNTERS = [
     "accept", "reject", "route.direct", "route.file", "decided.true_by_model", "decided.false_by_model",
-    "jsonschema.agree", "format.registered_mid_run", "format.custom_decided",
+    "jsonschema.agree", "format.registered_mid_run", "format.custom_decided", "format.probe",
 ] + [f"kw.{k}" for k in (
     "type", "enum", "const", "minimum", "maximum", "exclusiveMinimum", "exclusiveMaximum", "multipleOf",
     "minLength", "maxLength", "pattern", "format", "items", "additionalItems", "minItems", "maxItems",
@@ -78,6 +78,10 @@ def plan(tier):
 
 def js_verdict(schema, value):
     """Second opinion; None = abstains (crash, or a documented deviation applies)."""
+    if "\\\\1" in json.dumps(schema):
+        # jsonschema finds additional properties with ONE regex joined from all patterns ("|".join), which
+        # renumbers capture groups: numeric back-references then point at the wrong group.  It abstains.
+        return None
     try:
         import jsonschema  # pylint: disable=import-outside-toplevel
 
@@ -285,6 +289,22 @@ def one_schema(ctx, sut, idx, case):
                 )
 
 
+PROBE_STRINGS = ["", "a", "ab", "abc", "é", "éé", "2020-01-01", "not a uuid", "x" * 7, "x" * 8]
+
+
+def format_probe(ctx, sut, position):
+    """The SAME strings under `my-format` in every phase of the run (never registered, registered, registered
+    again with the opposite checker), with a long-lived element and with a freshly parsed one: a verdict
+    remembered per (format, value) from an earlier phase would show up here."""
+    schema = {"type": "string", "format": "my-format"}
+    if "probe_element" not in ctx.__dict__:
+        ctx.probe_element = sut.parse_direct(schema)
+    for element in (ctx.probe_element, sut.parse_direct(schema)):
+        for value in PROBE_STRINGS:
+            ctx.count("format.probe")
+            judge(ctx, sut, element, schema, schema, value, "direct", f"format_probe@{position}")
+
+
 def run_shard(ctx):
     from vlib import sut  # pylint: disable=import-outside-toplevel
 
@@ -305,6 +325,8 @@ def run_shard(ctx):
             ctx.count("format.reregistered_mid_run")
         if case is not None:
             one_schema(ctx, sut, idx, case)
+        if position % max(1, total // 12) == 0:
+            format_probe(ctx, sut, position)
 
 
 def replay(case, ctx):
